@@ -67,6 +67,14 @@ def run(chk):
         with open(f, 'w') as fh:
             fh.write(f)
         files.append(os.path.relpath(f, base))
+    # a directory whose NAME begins with a tilde (relative root '~', '~/pub'), while the account's home directory holds decoys
+    for d in ('b/~/pub', 'home/pub'):
+        os.makedirs(os.path.join(base, d))
+    for f in ('b/~/in', 'b/~/pub/in', 'home/in', 'home/secret', 'home/pub/in', 'home/pub/secret'):
+        with open(os.path.join(base, f), 'w') as fh:
+            fh.write(f)
+    os.environ['HOME'] = os.path.join(base, 'home')
+    files += ['b/~/in', 'b/~/pub/in']
     _base[0] = base
     if not _hooked[0]:
         sys.addaudithook(_audit)
@@ -124,6 +132,15 @@ def run(chk):
     for rname, rroot, rcwd in rel_roots:
         for nm in rel_names:
             jobs.append((nm, (rname, rroot, rcwd)))
+    for rt in (('rel tilde', '~', b), ('rel tilde/', '~/', b), ('rel tilde/pub', '~/pub', b), ('rel ./tilde', './~', b)):
+        for nm in ('in', 'secret', 'pub/in', 'pub/secret', '../top', '../home/secret'):
+            jobs.append((nm, rt))
+    # names that are still percent-encoded when they reach static_file (a gateway that encodes twice, a handler that forwards
+    # the raw path): '%2e%2e' is an ordinary file name, never a way up
+    for nm in ('%2e%2e/top', '..%2ftop', '%2e%2e%2ftop', '%2E%2E/top', 'sub/%2e%2e/%2e%2e/top', '%2e%2e/rootx/sib', '%2e%2e/%2e%2e/secret',
+               '..%5ctop', '%2e%2e/rootsecret', 'sub%2f..%2f..%2ftop', '%2e%2e/ROOT/caps', '%2fetc%2fpasswd', 'in%00', '%2e/in'):
+        for rt in roots:
+            jobs.append((nm, rt))
     for ss in names:
         for sep in (seps if thorough else [rng.choice(seps)]):
             for lead in (leads if thorough and len(ss) < 3 else [rng.choice(leads)]):
